@@ -128,7 +128,7 @@ def build_case(r: random.Random, idx: int, tier: str, forced=None):
         withdrawn = victims
         announced = [x for x in announced if x not in victims]
     if resync == 'flush-while-down':
-        steps.append(['api', 'peer * flush adj-rib out'])
+        steps.append(['api', 'rib flush out'])
     steps += [['sleep', 0.2], ['accept', 60.0], ['mark', 'second-session'], ['establish']]
     late = []
     withdrawn_down = [p for p, _, _ in withdrawn]
@@ -157,6 +157,7 @@ def build_case(r: random.Random, idx: int, tier: str, forced=None):
         'config': cfg,
         'steps': steps,
         'vtimeout': 400.0,
+        'rx_limit': 70000,
         'wall': 150.0,
         'quantum': 0.0005,
         'crash': crash,
